@@ -35,6 +35,10 @@ func init() {
 			{ID: "C11.R14", Text: "the first numbering reaches the stream: hand-over to a waiting GetInfo ⇔ first announcement (same rule as C10.R17)", Run: firstInfoHandOver},
 			{ID: "C11.R15", Text: "the reopen covers the range of the latest membership and nothing else: one opener per element of the list VBucketDiscovery.Get returned, not per loaded checkpoint (same rule as C15.R3)", Run: c15r3},
 			{ID: "C11.R16", Text: "the reopen resumes from the stored checkpoints: Load builds each position from the loaded document's own fields and never replaces or modifies a loaded document (same rule as C02.R2)", Run: c02r2},
+			{ID: "C11.R17", Text: "the reopen resumes from what the store holds at that moment, also in read-only mode: the wrapper forwards every Load (same rule as C15.R22)", Run: readOnlyForwardsLoad},
+			{ID: "C11.R18", Text: "the latest assignment wins: the follower's handler announces the leader's numbers synchronously, in the order the calls arrive (same rule as C10.R23)", Run: rpcAgreement},
+			{ID: "C11.R19", Text: "nothing is delivered while the stream is closed: delivery happens inside the observer's own call chain, under its delivery switch — no queue or dispatcher between observer and consumer (same rule as C03.R1)", Run: c03r1},
+			{ID: "C11.R20", Text: "the most recent membership information wins: announcements are applied in the order they were made: every Publish on the membership topic is a plain synchronous call, never go/defer (same rule as C10.R29)", Run: publishSynchronous},
 			{ID: "C11.R6", Text: "a repeated membership causes no notification (same rule as C10.R1)", Run: c10r1},
 			{ID: "C11.R7", Text: "the bus listener subscribed by the client calls Stream.Rebalance on every path (no notification is dropped while closed or reopening)", Run: c11r7},
 			{ID: "C11.R9", Text: "notifications are handled one at a time: the debounce test of Rebalance reads the balancing state before taking the lock, so every listener that reaches Stream.Rebalance is subscribed serialised (SubscribeAsync(…, transactional=true) or synchronous Subscribe)", Run: c11r9},
